@@ -61,11 +61,14 @@ func c12Rels(c *kit.Ctx) []string {
 }
 
 func runC12(c *kit.Ctx) {
-	r1 := c.Rule("R1", "codec field completeness (both directions)", 22)
-	r2 := c.Rule("R2", "nested message fields are nil-safe", 2)
-	r3 := c.Rule("R3", "parser indices are implied by length guards", 25)
-	r4 := c.Rule("R4", "Unmarshal error decides before the message is used", 6)
-	r5 := c.Rule("R5", "the decode target is empty when it is filled", 6)
+	// floors are sanity bounds (about 60% of the instance counts of the tree the
+	// rules were written against: 22/2/25/6/6), not exact counts: ordinary edits
+	// add and remove instances
+	r1 := c.Rule("R1", "codec field completeness (both directions)", 13)
+	r2 := c.Rule("R2", "nested message fields are nil-safe", 1)
+	r3 := c.Rule("R3", "parser indices are implied by length guards", 15)
+	r4 := c.Rule("R4", "Unmarshal error decides before the message is used", 4)
+	r5 := c.Rule("R5", "the decode target is empty when it is filled", 4)
 
 	// ---- R1
 	pairs, codecs := c12DiscoverCodecs(c)
@@ -105,8 +108,8 @@ func runC12(c *kit.Ctx) {
 			c12RunBounds(c, r3, cons, "payload bytes")
 		}
 	}
-	if nsplit < 10 {
-		c.Fatalf("R3: %d consumers of strings.Split(<nats.Msg>.Subject, …) found, 10 expected", nsplit)
+	if nsplit < 6 {
+		c.Fatalf("R3: %d consumers of strings.Split(<nats.Msg>.Subject, …) found, at least 6 expected (10 today)", nsplit)
 	}
 	if nbytes < 1 {
 		c.Fatalf("R3: no function of package data indexes a []byte parameter (1 expected: the high-rate payload parser)")
